@@ -209,7 +209,8 @@ def _defer_broken(ctx):
         if not name.startswith('rules.C'):
             continue
     import glob as _glob
-    for path in sorted(_glob.glob(os.path.join(os.path.dirname(os.path.abspath(__file__)), 'rules', 'C[0-9][0-9].py'))):
+    rdir = os.path.join(os.path.dirname(os.path.abspath(__file__)), 'rules')
+    for path in sorted(_glob.glob(os.path.join(rdir, 'C[0-9][0-9].py'))) + [os.path.join(rdir, 'common.py'), os.path.join(rdir, 'options.py')]:
         m = importlib.import_module('rules.' + os.path.basename(path)[:-3])
         for fname, f in list(vars(m).items()):
             if not isinstance(f, types.FunctionType) or f.__module__ != m.__name__ or getattr(f, '_deferring', False):
